@@ -139,6 +139,8 @@ INCLUDE = {
     # "TTLs only ever reduced by the time the reply spent in the cache" + "parse / re-serialise with name compression" (C03's anchors)
     "C03": [("C06", "c06_cache_lookup", None), ("C14", "c14_roundtrip", None)],
     # "every response parses as a DNS message": the encoder's output is accepted by the decoder and by the reference decoder
+    # "id-mismatched or truncated UDP replies retried over TCP" (C07's anchor) is the same lifted decision
+    "C07": [("C03", "c03_upstream_reply_accepted_by_id", None)],
     "C04": [("C14", "c14_roundtrip", ("encoding then decoding never panics", "the decoder accepts what the encoder produced", "independent RFC 1035 decoder"))],
     # YAML -> Interface: null suppresses, values recorded as configured (the loader half of "exactly the configured values")
     "C17": [("C19", "c19_radv_interface", ("`", "a configured", "an absent", "dns-search lifetime", "dns-servers lifetime", "an accepted hop-limit", "managed flag", "other flag", "reachable is", "retransmit is"))],
@@ -508,6 +510,12 @@ def _run_property(pid, tier, seed, logdir):
                 jobs.append(("c03_reply_sections_%d_%d_%d" % sh, (lambda sh=sh: props_lifted.reply_obligation(prog, en, structs, sh)),
                              "upstream reply with %d answer + %d authority + %d additional records (owner, type, TTL, data of every record symbolic and distinct per record), symbolic rcode and header bits; client query with symbolic id, question, with/without EDNS" % sh,
                              "reply id and question = the client's; QR set; rcode, answer, authority and additional sections = the upstream's, record by record and in order"))
+            jobs.append(("c03_upstream_reply_accepted_by_id", (lambda: props_lifted.accept_reply_obligation(prog, en, structs)),
+                         "the statements of OutQuery::handle_query_internal that choose the reply (lifted verbatim; the UDP and TCP exchanges are shims returning arbitrary replies): query id, both replies' ids and TC bits symbolic, client protocol UDP or TCP",
+                         "a UDP reply is used only if its id equals the query's and it is not truncated; otherwise it is discarded and the query repeated once over TCP; TCP clients are resolved over TCP only"))
+            jobs.append(("c03_outquery_carries_the_question", (lambda: props_lifted.outquery_obligation(prog, en, structs)),
+                         "create_outquery (dns/outquery.rs) for every client question (name identity, type, class symbolic), DNSSEC-OK bit and chosen id",
+                         "the upstream query carries the client's question under the chosen id as a standard recursive query (QR clear, opcode QUERY, RD set, no records), DO passed on"))
         elif pid == "C08":
             jobs.append(("c08_dns_acl_gate", lambda: props_lifted.dnsacl_obligation(prog, en, structs),
                          "every query: RD symbolic, qtype symbolic over all 65536 types, source port absent/any, ACL verdict arbitrary (require_permission itself is decided by the Kani harnesses c08_acl_*)",
